@@ -35,6 +35,18 @@ type expander struct {
 	vars      map[string]string
 	idx       map[string]int // loop index variables
 	depth     int
+	// condVars: variables defined from a pipeline ({{ $v := ne $i 0 }}); a test of the variable is a test of
+	// the pipeline, evaluated with the loop indexes of the definition
+	condVars map[string]condVar
+	// textVars: variables defined by printf with a constant format: their value is program text with
+	// placeholders for the arguments, and printing the variable prints that text
+	textVars map[string]string
+}
+
+type condVar struct {
+	pipe *parse.PipeNode
+	dot  string
+	idx  map[string]int
 }
 
 // ExpandTree expands one parsed tree.
@@ -75,8 +87,24 @@ func (e *expander) node(b *strings.Builder, n parse.Node, dot string) {
 	case *parse.CommentNode:
 	case *parse.ActionNode:
 		if len(x.Pipe.Decl) > 0 {
-			// variable declaration: remember a readable name, emit nothing
-			e.vars[x.Pipe.Decl[0].Ident[0]] = e.describe(x.Pipe, dot)
+			// variable declaration: remember a readable name and the defining pipeline, emit nothing
+			name := x.Pipe.Decl[0].Ident[0]
+			e.vars[name] = e.describe(x.Pipe, dot)
+			if e.textVars == nil {
+				e.textVars = map[string]string{}
+			}
+			delete(e.textVars, name)
+			if txt, ok := e.printfText(x.Pipe, dot); ok {
+				e.textVars[name] = txt
+			}
+			snap := map[string]int{}
+			for k, v := range e.idx {
+				snap[k] = v
+			}
+			if e.condVars == nil {
+				e.condVars = map[string]condVar{}
+			}
+			e.condVars[name] = condVar{&parse.PipeNode{NodeType: parse.NodePipe, Cmds: x.Pipe.Cmds}, dot, snap}
 			return
 		}
 		b.WriteString(e.output(x.Pipe, dot))
@@ -171,12 +199,67 @@ func (e *expander) arg(a parse.Node, dot string) string {
 	return a.String()
 }
 
+// printfText evaluates `printf "<constant format>" args…` to program text with one placeholder per argument
+// (an argument that is itself a text variable contributes its text).
+func (e *expander) printfText(p *parse.PipeNode, dot string) (string, bool) {
+	if len(p.Cmds) != 1 || len(p.Cmds[0].Args) < 2 {
+		return "", false
+	}
+	c := p.Cmds[0]
+	id, ok := c.Args[0].(*parse.IdentifierNode)
+	f, ok2 := c.Args[1].(*parse.StringNode)
+	if !ok || !ok2 || id.Ident != "printf" {
+		return "", false
+	}
+	var b strings.Builder
+	argi := 2
+	for i := 0; i < len(f.Text); i++ {
+		if f.Text[i] != '%' || i+1 >= len(f.Text) {
+			b.WriteByte(f.Text[i])
+			continue
+		}
+		i++
+		switch f.Text[i] {
+		case '%':
+			b.WriteByte('%')
+		case 's', 'v', 'd', 'q':
+			if argi >= len(c.Args) {
+				return "", false
+			}
+			arg := ""
+			if vn, isVar := c.Args[argi].(*parse.VariableNode); isVar && len(vn.Ident) == 1 {
+				if t, has := e.textVars[vn.Ident[0]]; has {
+					arg = t
+				}
+			}
+			if arg == "" {
+				arg = placeholder(e.arg(c.Args[argi], dot))
+			}
+			if f.Text[i] == 'q' {
+				arg = `"` + arg + `"`
+			}
+			b.WriteString(arg)
+			argi++
+		default:
+			return "", false
+		}
+	}
+	return b.String(), true
+}
+
 // output renders an action in output position.
 func (e *expander) output(p *parse.PipeNode, dot string) string {
 	if len(p.Cmds) == 0 {
 		return ""
 	}
 	first := p.Cmds[0]
+	if len(p.Cmds) == 1 && len(first.Args) == 1 {
+		if vn, ok := first.Args[0].(*parse.VariableNode); ok && len(vn.Ident) == 1 {
+			if t, has := e.textVars[vn.Ident[0]]; has {
+				return t
+			}
+		}
+	}
 	// printf "%q" X  → "‹X›"
 	if id, ok := first.Args[0].(*parse.IdentifierNode); ok && id.Ident == "printf" && len(first.Args) >= 3 {
 		if f, ok := first.Args[1].(*parse.StringNode); ok && f.Text == "%q" {
@@ -232,7 +315,16 @@ func (e *expander) cmd(c *parse.CommandNode, dot string) bool {
 		case *parse.BoolNode:
 			return x.True
 		case *parse.VariableNode:
-			// boolean variables declared from a condition: evaluate by text
+			// a variable declared from a condition: evaluate the condition as it stood at the definition
+			if cv, ok := e.condVars[x.Ident[0]]; ok && len(x.Ident) == 1 && e.depth < 8 {
+				saved := e.idx
+				e.idx = cv.idx
+				e.depth++
+				r := e.cond(cv.pipe, cv.dot)
+				e.depth--
+				e.idx = saved
+				return r
+			}
 			return e.atom(strings.Join(x.Ident, "."))
 		default:
 			return e.atom(c.Args[0].String())
@@ -292,6 +384,15 @@ func (e *expander) cmd(c *parse.CommandNode, dot string) bool {
 // expander would consult), for variant enumeration.
 func TplAtoms(tree *parse.Tree) []string {
 	m := map[string]bool{}
+	defs := map[string][]*parse.PipeNode{}
+	WalkTpl(tree.Root, func(n parse.Node) bool {
+		if a, ok := n.(*parse.ActionNode); ok && len(a.Pipe.Decl) > 0 {
+			name := a.Pipe.Decl[0].Ident[0]
+			defs[name] = append(defs[name], &parse.PipeNode{NodeType: parse.NodePipe, Cmds: a.Pipe.Cmds})
+		}
+		return true
+	})
+	resolving := map[string]bool{}
 	var visitCond func(p *parse.PipeNode)
 	var visitCmd func(c *parse.CommandNode)
 	visitCond = func(p *parse.PipeNode) {
@@ -311,6 +412,14 @@ func TplAtoms(tree *parse.Tree) []string {
 				return
 			}
 			if _, ok := c.Args[0].(*parse.BoolNode); ok {
+				return
+			}
+			if vn, ok := c.Args[0].(*parse.VariableNode); ok && len(vn.Ident) == 1 && len(defs[vn.Ident[0]]) > 0 && !resolving[vn.Ident[0]] {
+				resolving[vn.Ident[0]] = true
+				for _, dp := range defs[vn.Ident[0]] {
+					visitCond(dp)
+				}
+				resolving[vn.Ident[0]] = false
 				return
 			}
 			m[c.Args[0].String()] = true
